@@ -101,10 +101,7 @@ def check_one(ctx, res, seed, stats, samples):
     # every exportable type reachable from an export_all root has its file, and those files are closed
     named = [i for i, t in enumerate(qs) if t[0] == "named" and not t[2] and st.get(i) == "OK" and not res["q"][i]["decl"].startswith("\x00")
              and res["q"][i]["output_path"] not in ("-", "")]
-    alone = named[1::2]
-    roots = [i for i in named[0::2]][::2]
     mixed_dir = EXPORT_DIR + "_mixed"
-    st2, tree = CR.run_export_mixed(res["exe"], mixed_dir, alone, roots)
     by_out = {}
     for i in named:
         by_out.setdefault(os.path.normpath(res["q"][i]["output_path"]), i)
@@ -117,37 +114,51 @@ def check_one(ctx, res, seed, stats, samples):
     def deps_paths(i):
         return [os.path.normpath(x.split("@", 1)[1]) for x in res["q"][i]["deps"].split("|") if "@" in x]
 
+    tree = {}
+
     def read_mixed(pth):
         return tree.get(os.path.normpath(os.path.relpath(pth, mixed_dir)))
-    for r in roots:
-        if st2.get(r) != "OK":
-            continue
-        need, todo = set(), [os.path.normpath(res["q"][r]["output_path"])]
-        while todo:
-            pth = todo.pop()
-            if pth in need:
+    # histories: (types written alone first, roots exported with dependencies afterwards).  One by index parity, and one
+    # per pair (M, R) where R depends on M and M has dependencies of its own: M alone, then R
+    hist = [(named[1::2], [i for i in named[0::2]][::2])]
+    pairs = []
+    for r in named:
+        for pm in deps_paths(r):
+            m = by_out.get(pm)
+            if m is not None and m != r and deps_paths(m) and len(owners_of.get(pm, ())) <= 1:
+                pairs.append(([m], [r]))
+    hist += pairs[:10 if ctx.quick else 60]
+    for alone, roots in hist:
+        st2, tree = CR.run_export_mixed(res["exe"], mixed_dir, alone, roots)
+        for r in roots:
+            if st2.get(r) != "OK":
                 continue
-            need.add(pth)
-            if pth in by_out:        # exact dependencies are known for non-generic query types only: the closure is under-approximated
-                todo += deps_paths(by_out[pth])
-        stats["mixed_history_roots"] = stats.get("mixed_history_roots", 0) + 1
-        stats["mixed_history_files"] = stats.get("mixed_history_files", 0) + len(need)
-        for pth in sorted(need):
-            text = tree.get(pth)
-            probs = []
-            if text is None:
-                probs = ["the export did not write %s, the file of a type reachable from the root" % pth]
-            elif len(owners_of.get(pth, ())) <= 1:
-                # a file shared by several types may also hold file-mates written alone by export(): their imports are their own business
-                probs = [x for x in tsmini.closed_module(os.path.join(mixed_dir, pth), text, known, read_mixed)]
-            if probs:
-                data = dict(kind="property-violated", what="history", history=dict(export_alone=[C.rust_ty(qs[i]) for i in alone], then_export_all=C.rust_ty(qs[r])),
-                            root=C.rust_ty(qs[r]), file=pth, content=text, problems=probs, definition=C.to_rust(by[qs[r][1]]), seed=seed)
-                cls = classify(probs, text or "", res, by)
-                if cls:
-                    ctx.known_class(cls, "%s: %s" % (C.rust_ty(qs[r]), probs[0]), data)
-                else:
-                    viol.append(data)
+            need, todo = set(), [os.path.normpath(res["q"][r]["output_path"])]
+            while todo:
+                pth = todo.pop()
+                if pth in need:
+                    continue
+                need.add(pth)
+                if pth in by_out and len(owners_of.get(pth, ())) <= 1:   # exact dependencies are known for non-generic query types that have their file to themselves: the closure is under-approximated
+                    todo += deps_paths(by_out[pth])
+            stats["mixed_history_roots"] = stats.get("mixed_history_roots", 0) + 1
+            stats["mixed_history_files"] = stats.get("mixed_history_files", 0) + len(need)
+            for pth in sorted(need):
+                text = tree.get(pth)
+                probs = []
+                if text is None:
+                    probs = ["the export did not write %s, the file of a type reachable from the root" % pth]
+                elif len(owners_of.get(pth, ())) <= 1:
+                    # a file shared by several types may also hold file-mates written alone by export(): their imports are their own business
+                    probs = [x for x in tsmini.closed_module(os.path.join(mixed_dir, pth), text, known, read_mixed)]
+                if probs:
+                    data = dict(kind="property-violated", what="history", history=dict(export_alone=[C.rust_ty(qs[i]) for i in alone], then_export_all=C.rust_ty(qs[r])),
+                                root=C.rust_ty(qs[r]), file=pth, content=text, problems=probs, definition=C.to_rust(by[qs[r][1]]), seed=seed)
+                    cls = classify(probs, text or "", res, by)
+                    if cls:
+                        ctx.known_class(cls, "%s: %s" % (C.rust_ty(qs[r]), probs[0]), data)
+                    else:
+                        viol.append(data)
     shutil.rmtree(mixed_dir, ignore_errors=True)
     for v in viol[:3]:
         ctx.fail("a written file is not closed: " + v["problems"][0], v)
